@@ -780,6 +780,12 @@ class Interp:
                 for i, r in zip(idx, v.rows):
                     base.rows[i] = Arr(list(r.items))
                 return
+            if isinstance(base, Arr2) and (is_num(v) or v is NAN):
+                n = len(base.rows)
+                lo, hi = ci(k.start, 0), ci(k.stop, n)
+                for i in list(range(n))[lo:hi]:
+                    base.rows[i] = Arr([v] * len(base.rows[i].items))
+                return
             raise NotInFragment(f"slice store {norm(node)}")
         if isinstance(base, dict):
             k = self._key(k)
@@ -1980,6 +1986,9 @@ def _np_concatenate(it, args, kw):
 
 def _np_delete(it, args, kw):
     a, idx = args[0], args[1]
+    if isinstance(a, Arr2) and isinstance(idx, (Arr, list, tuple)):
+        drop = {it._index(x, len(a.rows)) for x in (idx.items if isinstance(idx, Arr) else idx)}
+        return Arr2([Arr(list(r.items)) for j, r in enumerate(a.rows) if j not in drop])
     if isinstance(a, Arr2):
         i = it._index(idx, len(a.rows))
         return Arr2([Arr(list(r.items)) for j, r in enumerate(a.rows) if j != i])
@@ -2056,7 +2065,18 @@ def _fnc_find(it, args, kw):
     return None
 
 
+def _np_empty_like(it, args, kw):
+    a = args[0]
+    if isinstance(a, Arr2):
+        return Arr2([Arr([num(0)] * len(r.items)) for r in a.rows])
+    if isinstance(a, Arr):
+        return Arr([num(0)] * len(a.items))
+    return Unknown("empty_like")
+
+
 DEFAULT_EXT: Dict[str, Callable] = {
+    "numpy.empty_like": _np_empty_like,
+    "numpy.zeros_like": _np_empty_like,
     "fnc.find": _fnc_find,
     "pydash.find": lambda it, a, k: _fnc_find(it, [a[1], a[0]], k),
     "numpy.zeros": _np_zeros,
